@@ -209,6 +209,15 @@ def generic_id_ok(o):
 def judge(case, outs):
     """(ok, what is wrong) for the outcomes of one tree"""
     wrong = []
+    kids = kids_of(case.tree)
+    def called(t):
+        if t == case.op:
+            return 'the operation element'
+        if case.ctl is not None and t == case.ctl:
+            return 'the controls element'
+        if kids and t == kids[0]:
+            return 'the message ID element'
+        return absx.fmt(t)[:50]
     for o in outs:
         cond = (' when ' + ', '.join(('' if t else 'not ') + absx.fmt(a)[:50] for a, t in o.pc if absx.leaves(a, lambda x: x[0] == 'param'))[:160]) if any(absx.leaves(a, lambda x: x[0] == 'param') for a, t in o.pc) else ''
         if o.kind == 'error':
@@ -231,8 +240,7 @@ def judge(case, outs):
         elif o.id not in (('lit', case.want_id), ('cast', ('lit', case.want_id), 'i32')):
             parts.append('under the message ID %s, not %d' % (absx.fmt(o.id)[:24], case.want_id))
         if o.op != case.op:
-            parts.append('with %s as the operation, not the protocolOp element' % ('the controls element' if case.ctl is not None and o.op == case.ctl else
-                                                                                 'the message ID element' if kids_of(case.tree) and o.op == kids_of(case.tree)[0] else absx.fmt(o.op)[:50]))
+            parts.append('with %s as the operation, not the protocolOp element' % called(o.op))
         if case.ctl is None:
             if o.ctrls != ('vec', ()):
                 parts.append('with the controls %s although the message holds no controls element' % absx.fmt(o.ctrls)[:60])
@@ -241,7 +249,8 @@ def judge(case, outs):
             decoded = o.ctrls[0] == 'call' and o.ctrls[1] == PARSE_CONTROLS and tuple(o.ctrls[2]) == (case.ctl,)
             if not decoded and not (o.ctrls == ('vec', ()) and list_is_empty(o.pc, lst)):
                 parts.append('with the controls %s, not what parse_controls makes of the controls element of the message%s' % (
-                    'left empty' if o.ctrls == ('vec', ()) else absx.fmt(o.ctrls)[:60], ' (which holds controls)' if lst[0] != 'vec' or lst[1] else ''))
+                    'left empty' if o.ctrls == ('vec', ()) else ('parse_controls makes of %s' % called(o.ctrls[2][0])) if o.ctrls[0] == 'call' and o.ctrls[1] == PARSE_CONTROLS and len(o.ctrls[2]) == 1
+                    else absx.fmt(o.ctrls)[:60], ' (which holds controls)' if lst[0] != 'vec' or lst[1] else ''))
         if parts:
             wrong.append('delivered ' + '; '.join(parts) + cond)
     if case.kind == 'good' and case.want_id is None and not any(o.kind == 'delivered' for o in outs):
